@@ -25,12 +25,19 @@ static void verif_unique_ptr_move_assign(OUT_VEC_T **p, OUT_VEC_T *q)   /* p = s
   *p = q;
   if (old) free(old);
 }
+static OUT_VEC_T *verif_unique_ptr_release(OUT_VEC_T **p)   /* p.release(): gives up ownership WITHOUT freeing */
+{
+  OUT_VEC_T *old = *p;
+  *p = 0;
+  return old;
+}
 unsigned long verif_ghost_K;
 unsigned verif_ghost_J;
 OUT_SCALAR_T verif_ghost_src;   /* ghost: value of o[K][J] before the call (set by the harness) */
 
+/* (a block LARGER than m_size elements would also be a valid representation; only "at least m_size" is demanded) */
 #define WF(d) (((d)->m_size == 0 || (d)->m_ptr != 0) && (d)->m_size <= ARRAY_OWN_MAX && \
-               ((d)->m_ptr == 0 || (__CPROVER_POINTER_OFFSET((d)->m_ptr) == 0 && __CPROVER_OBJECT_SIZE((d)->m_ptr) == (d)->m_size * sizeof(OUT_VEC_T) && __CPROVER_DYNAMIC_OBJECT((d)->m_ptr))))
+               ((d)->m_ptr == 0 || (__CPROVER_POINTER_OFFSET((d)->m_ptr) == 0 && __CPROVER_OBJECT_SIZE((d)->m_ptr) >= (d)->m_size * sizeof(OUT_VEC_T) && __CPROVER_DYNAMIC_OBJECT((d)->m_ptr))))
 
 /* copy assignment; `self` and `o` may be the same object */
 #define CONTRACT_array_copy_assign(self, o) \
